@@ -210,7 +210,9 @@ class C14:
     rule = ("base programs: rendered CoreGen programs, typed expression programs, repository samples and seeds without "
             "multi-line strings. Variant = base with 1-4 of: trailing comment after a code line, whole-line comment indented "
             "like the previous or the next statement, blank line, whitespace-only line, trailing spaces, final newline "
-            "added/removed/doubled, LF -> CRLF for the whole file, an existing pair of grouping parentheses doubled. Oracle: "
+            "added/removed/doubled, LF -> CRLF for the whole file, an existing pair of grouping parentheses doubled, NEW parentheses around a "
+            "prefix of an attribute chain / a whole right-hand side / an operand (parens_wrap; 10% of the bases are a fixed program full of "
+            "chains); blank lines preferably below match / handle headers, between arms and before else. Oracle: "
             "same verdict; for trivia byte-identical Python, for doubled parentheses equal Python ast. Non-trivial: base "
             "accepted and >=1 trivia placed on or before an indented (nested) line; distinct by SHA-1 of base+variant.")
     assumptions = [
